@@ -56,7 +56,47 @@ def numberTestPub [FloorOps α] {ε : Type} (f : GF α) (events : List ε) : α 
 def nbdNumberTestPub [FloorOps α] {ε : Type} (f : GF α) (events : List ε) (variance : α) : α × α :=
   nbdDelta12 f.eventCount events.length variance epsCode
 
+/-! `scale(val)` documents "int, float, or ndarray" (forecasts.py:148): with an array the product `_data * _scale`
+    broadcasts; `factors` is the factor that multiplies each stored rate after broadcasting (row-major) -/
+structure GFA (α : Type) where
+  base : List α
+  factors : List α
+
+def GFA.data (f : GFA α) : List α := List.zipWith mul f.base f.factors
+def GFA.eventCount (f : GFA α) : α := RealOps.sum f.data
+
+def numberTestPubA [FloorOps α] {ε : Type} (f : GFA α) (events : List ε) : α × α :=
+  delta12 f.eventCount events.length epsCode
+
+def nbdNumberTestPubA [FloorOps α] {ε : Type} (f : GFA α) (events : List ε) (variance : α) : α × α :=
+  nbdDelta12 f.eventCount events.length variance epsCode
+
 end Real
+
+/-! ### a catalog forecast with on-the-fly filters (forecasts.py:577-633)
+    `__next__` hands out `catalog.filter(filters)` / `.filter_spatial(region)` when `apply_filters` is set; the filters
+    act IN PLACE on a stored catalog, a generator-backed forecast with `store=True` keeps the filtered catalogs and
+    switches `apply_filters` off (:609-612), one with `store=False` re-reads and re-filters: in all three cases a full
+    pass hands out the filtered catalogs and leaves a forecast whose next pass hands out the same ones. -/
+structure CF (ε : Type) where
+  catalogs : List (List ε)
+  applyFilters : Bool
+
+/-- one full pass over the forecast: (catalogs handed out, forecast afterwards); `keep` = all configured filters -/
+def CF.pass {ε : Type} (keep : ε → Bool) (f : CF ε) : List (List ε) × CF ε :=
+  let out := if f.applyFilters then f.catalogs.map (List.filter keep) else f.catalogs
+  (out, { f with catalogs := out })
+
+/-- `k` earlier full passes (get_event_counts, get_expected_rates, a for-loop, another test ...) -/
+def CF.passes {ε : Type} (keep : ε → Bool) : Nat → CF ε → CF ε
+  | 0, f => f
+  | k + 1, f => CF.passes keep k (f.pass keep).2
+
+/-- catalog_evaluations.number_test(forecast, observed): one pass, sizes of the catalogs handed out -/
+def catalogNTestCF {ε : Type} (keep : ε → Bool) (f : CF ε) (obs : List ε) :
+    (Option (Nat × Nat) × Option (Nat × Nat)) × CF ε :=
+  let p := f.pass keep
+  (catalogNTest (p.1.map List.length) obs.length, p.2)
 
 /-- catalog_evaluations.number_test: sizes of the synthetic catalogs against the size of the observed one -/
 def catalogNTestPub {ε : Type} (catalogs : List (List ε)) (obs : List ε) :
